@@ -6,6 +6,7 @@ import (
 	"context"
 	"encoding/binary"
 	"errors"
+	"github.com/prysmaticlabs/go-bitfield"
 
 	"github.com/attestantio/go-builder-client/api"
 	apiv1 "github.com/attestantio/go-builder-client/api/v1"
@@ -385,7 +386,7 @@ func c06Roots(n int) {
 		caps := make([]*altair.ContributionAndProof, n)
 		for i := range caps {
 			caps[i] = &altair.ContributionAndProof{AggregatorIndex: phase0.ValidatorIndex(vnd.U64("aggregator")),
-				Contribution: &altair.SyncCommitteeContribution{Slot: slot, BeaconBlockRoot: phase0.Root(vnd.Root("cbr")), SubcommitteeIndex: uint64(vnd.Choose("contribution.subcommittee", 2))}} // several aggregators may share a subcommittee
+				Contribution: &altair.SyncCommitteeContribution{Slot: slot, BeaconBlockRoot: phase0.Root(vnd.Root("cbr")), AggregationBits: bitfield.NewBitvector128(), SubcommitteeIndex: uint64(vnd.Choose("contribution.subcommittee", 2))}} // several aggregators may share a subcommittee
 			roots[i], _ = caps[i].HashTreeRoot()
 		}
 		sigs, err = s.SignContributionAndProofs(context.Background(), accs, caps)
